@@ -82,13 +82,19 @@ def partial_failure_histories(work, seed, n, depth=40, maxlen=14):
     return out
 
 
+_HIST_CACHE = {}
+
+
 def sim_histories(work, seed, n, depth=40):
     """block histories for the node-level checks: the Deliver transactions of simulated Panacea behaviours
     (mixed custom modules, one- and two-message transactions, succeeding and failing)."""
+    key = (work, seed, n, depth)
+    if key in _HIST_CACHE:
+        return _HIST_CACHE[key]
     pre = configs.preset('C15', 'quick')
-    simc = dict(pre['sims'][0]['constants'])
+    simc = dict(pre['sims'][0]['constants'], Fees2=S([0]))     # one fee denomination: the histories are block content, not fee experiments
     behs = vlib.simulate(work, simc, n, depth, seed)
-    out = []
+    out = _HIST_CACHE[key] = []
     for steps in behs:
         txs = [a['tx'] for a in steps if a.get('name') == 'Deliver']
         if len(txs) >= 3:
@@ -279,7 +285,9 @@ def node_check(pid, tier, seed):
                     if changed:
                         variants.append(v2)
                 for vi, sch in enumerate(variants):
-                    jobs.append(dict(id='%s-%d-%d-%d' % (pid, si, r, vi), cfg={}, blocks=shape_history(txs, sc['shape']), schedule=sch, upgradeAt=sc['upgradeAt']))
+                    # C19: the chain is in the state the previous release left it in (staking minimum commission raised by the v2.2.0 handler, older validators below it)
+                    jobs.append(dict(id='%s-%d-%d-%d' % (pid, si, r, vi), cfg=(dict(prev=True) if pid == 'C19' and (si + vi) % 3 != 0 else {}),
+                                     blocks=shape_history(txs, sc['shape']), schedule=sch, upgradeAt=sc['upgradeAt']))
                     if pid == 'C19' and (si + r + vi) % 2 == 0:
                         # the same schedule over a state in which every custom store is populated (incl. a DID tombstone) before the upgrade block
                         jobs.append(dict(jobs[-1], id=jobs[-1]['id'] + '-pop', prefix=populated_prefix()))
@@ -537,10 +545,9 @@ def concurrency_check(tier, seed):
             for ln in open(tf):
                 if '"QEnd"' in ln:
                     nq += 1
-        # (3) data races: auxiliary detector riding on the same schedules (thorough tier; the -race build of the whole application is slow)
-        race = None
-        if not q:
-            race = race_run(work, seed)
+        # (3) data races: auxiliary detector riding on the same schedules (quick: one short run + the stateless sweep; thorough: three full runs)
+        race = race_run(work, seed, light=q)
+        if True:
             for ri, r in enumerate(race['reports']):
                 viol.append(dict(kind='VIOLATION', id='C20', run='data-race-%d' % ri, step=0, line=0, file=''))
         jobs_by_id = {j['id']: j for j in jobs}
@@ -560,7 +567,7 @@ def concurrency_check(tier, seed):
         return conclude(pid, tier, seed, t0, viol, drift, cov,
                         ['Go sync.RWMutex semantics as modelled in KeyStoreLocks.tla (writer preference)',
                          'consensus and mempool ABCI calls are serialised (as CometBFT v0.37 local client does); queries use the concurrent gRPC path (CreateQueryContext)',
-                         'data races: auxiliary `go build -race` run in the thorough tier only; only reports whose stack touches github.com/medibloc/panacea-core count'],
+                         'data races: auxiliary `go build -race` run (one short run in the quick tier); only reports in which one of the two racing accesses is made by github.com/medibloc/panacea-core code count'],
                         jobs_by_id, sig_of=lambda v: v['run'].rsplit('-', 1)[0])
     finally:
         shutil.rmtree(work, ignore_errors=True)
@@ -590,9 +597,29 @@ def race_is_ours(blk):
     return False
 
 
-def race_run(work, seed):
+def sweep_txs():
+    """message shapes for the stateless sweep that block histories rarely contain: documents with every key-type class (incl. types the module has no
+    constant for), rich documents, dedicated methods, plus the populating block"""
+    def doc(d, ktype, ex=''):
+        return dict(id=d, vms=[dict(n='v1', key='k1', type=ktype)], auth=[dict(n='v1', ded=False, key='', type='')], asrt=[], ex=ex)
+    out = list(populated_prefix())
+    for d in ('d1', 'd2', 'dc'):
+        for kt, ex in (('es19', ''), ('es18', ''), ('ed25', ''), ('x20', ''), ('es19', 'rich'), ('es19', 'rich2'), ('x20', 'rich')):
+            dc = doc(d, kt, ex)
+            for typ in ('did.Create', 'did.Update'):
+                out.append(dict(msgs=[dict(type=typ, did=d, doc=dc, vm='v1', vmDid=d, proof=dict(key='k1', data=dc, seq=0), **{'from': 'a1'})], signers=['a1'], fee=0, exec='none'))
+    return out
+
+
+def race_run(work, seed, light=False):
     harness = vlib.build_harness(race=True)
-    jobs = conc_jobs(work, seed + 3, 3, sweep=True)
+    # same history request as the main stage (cached): no second TLC simulation
+    if light:
+        jobs = [dict(j, readers=4) for j in conc_jobs(work, seed, 6, nblocks=3, sweep=True)[:1]]
+    else:
+        jobs = conc_jobs(work, seed, 60, sweep=True)[4:10]
+    for j in jobs:
+        j['sweepTxs'] = sweep_txs()
     jf = os.path.join(work, 'race-jobs.ndjson')
     with open(jf, 'w') as f:
         for j in jobs:
@@ -601,6 +628,12 @@ def race_run(work, seed):
                        env=dict(os.environ, GORACE='halt_on_error=0'))
     ksp_stderr = subprocess.run([harness, 'locks-stress'], capture_output=True, text=True, timeout=600, env=dict(os.environ, GORACE='halt_on_error=0')).stderr
     reports, dependency = [], []
+    # an unsynchronised Go map dies with a fatal error instead of a report: custom-module code on the faulting goroutine's stack makes it ours
+    for err_out in (p.stderr, ksp_stderr):
+        if 'fatal error: concurrent map' in err_out:
+            blk = err_out[err_out.index('fatal error: concurrent map'):][:3000]
+            first = blk.split('\n\n')[1] if '\n\n' in blk else blk
+            (reports if 'medibloc/panacea-core' in first else dependency).append(blk)
     for blk in (p.stderr.split('WARNING: DATA RACE')[1:] + ksp_stderr.split('WARNING: DATA RACE')[1:]):
         blk = blk.split('==================')[0]
         (reports if race_is_ours(blk) else dependency).append(blk[:3000])
@@ -685,6 +718,9 @@ def compkey_check(tier, seed):
             for s in itertools.product(alpha, repeat=n):
                 if n < 3 or 47 in s or s[0] == 97:
                     cases.append(dict(k='str', name=list(s)))
+        # the offset component of a record key: every uint64 the chain can hand out has a string form that reads back as the same number
+        for off in list(range(0, 34)) + [63, 64, 65, 77, 99, 100, 101, 255, 256, 511, 512, 777, 1000, 4095, 4096, 65535, 65536, 10 ** 6, 2 ** 31, 2 ** 32, 2 ** 53, 2 ** 63 - 1, 2 ** 63, 2 ** 64 - 2]:
+            cases.append(dict(k='str', name=[97], off=str(off)))
         cases.append(dict(k='str', name=[97] * 70))
         cases.append(dict(k='str', name=[97] * 69 + [47]))
         cf_in = os.path.join(work, 'ck-cases.ndjson')
@@ -737,7 +773,7 @@ def signbytes_check(tier, seed):
         vlib.copy_spec(work)
         harness = vlib.build_harness()
         consts = configs.mk(Accts=S(['a1', 'a2']), Topics=S(['t1', 't2']), Descs=S(['', 'x', ' x']), Mons=S(['', 'm', 'm ']), RecKeys=S(['', 'k1']), RecVals=S(['', 'v1']) if q else S(['', 'v1', 'v1\\t']),
-                            FeePayers=S(['none', 'a1', 'a2']), Dids=S(['d1', 'dc']), DocNames=S(['A1', 'A2']) if q else S(['A1', 'A2', 'C1', 'D2']), Keys=S(['k1']) if q else S(['k1', 'k2']),
+                            FeePayers=S(['none', 'a1', 'a2']), Dids=S(['d1', 'dc']), DocNames=S(['A1', 'A2', 'R1', 'R2']) if q else S(['A1', 'A2', 'C1', 'D2', 'R1', 'R2', 'F12']), Keys=S(['k1']) if q else S(['k1', 'k2']),
                             VmNames=S(['v1']), Seqs=S([0]) if q else S([0, 1]), DenomIds=S(['n1', 'n2']), TokenIds=S(['i1', 'i2']), DNames=S(['x', 'y']),
                             Kinds=configs.AOL_KINDS | configs.DID_KINDS | configs.PN_KINDS)
         cfg = os.path.join(work, 'sb.cfg')
